@@ -1,23 +1,30 @@
-"""C21 (selection half) -- rule selection is exact.
+"""C21 -- rule selection is exact (proved for the selection kernel) and only selected rules run and report (rule loop).
 
     "The rules that run are exactly those matched by the configured selection minus those matched by the exclusion
      list, where matching covers codes, names, groups, aliases and globs, and only those rules report violations."
-    (second sentence of C21 -- a rule's violations do not depend on the other enabled rules -- is NOT decided here)
+    (second sentence of C21 -- a rule's violations do not depend on the other enabled rules -- is decided only as far as it
+     can be stated per call of the rule loop: see NOT_COVERED)
 
 Code under contract
     sqlfluff.core.rules.base:   RuleSet._expand_rule_refs, RuleSet.rule_reference_map, RuleSet.get_rulepack
     sqlfluff.core.linter.linter: Linter.get_rulepack, Linter.lint_fix_parsed (rule loop), Linter.lint_parsed
 
-What is decided how (nothing in this file is an SMT proof -- see SYMBOLIC_BLOCKED for why):
-  1. `_expand_rule_refs`, 2. `rule_reference_map`: full pyvc contracts (DSL text below, PARKED: registered with no
-     property so that the SMT path does not run) whose *native reading* is executed on the real functions by
-     `pyvc.replay.search` (random maps / synthetic registers with every kind of collision + the real register).
-  3. `RuleSet.get_rulepack` / `Linter.get_rulepack`: executable contract `codes(pack) == sorted(sel(allow) - sel(deny))`
-     evaluated on the real RuleSet for all pairs of <=2-element selector lists over a pool of 25 selectors (thorough:
-     all 106929 pairs, quick: a seeded sample), against an oracle written from the property text over the registered
-     manifests (it calls neither rule_reference_map nor _expand_rule_refs).
-  4. `lint_fix_parsed`: syntactic data-flow obligations over the real AST (EXTRA) + a dynamic confirmation that the set
-     of rules whose `crawl` is entered equals the selected set and that every reported code is selected or PRS/TMP/LXR.
+What is decided how
+  A. pyvc (SMT) proofs over the real source -- contracts/c21_select.py:
+     1. RuleSet._expand_rule_refs (whole function): the expanded set is exactly the union over the selectors of what each stands
+        for (the reference itself if it is a key of the map, else every key it matches as a glob);
+     2. RuleSet.rule_reference_map (whole function): keys = codes U names U groups U aliases, values under the precedence
+        codes > names > groups > aliases, map[code] == {code}, values are codes;
+     3. RuleSet.get_rulepack#selection (region contract): the instantiated code list == selected(rules, default all) minus
+        selected(exclude_rules), in the order of the sorted register; no path of the range raises (unknown references only warn);
+     4. Linter.lint_fix_parsed#rule-loop (region contract): only members of rule_pack.rules are crawled, every member at least
+        once (exactly once when linting), the violations appended come from crawls of members only, nothing found is dropped.
+  B. EXTRA: 9 syntactic data-flow obligations over the real AST (who may call crawl, where violations come from, where rule
+     packs come from, + the glue between the region contracts and the statements around them).
+  C. BOUNDED (labelled, not proofs): [0] the native reading of contracts 1 and 2 on the real functions (random maps, the real
+     register, synthetic registers); [1] the real get_rulepack against an oracle written from the property text over a pool of
+     25 selectors; [2] lints under a crawl spy.
+The level stays `other`: parts B and C are not proofs, and the region contracts assume what precedes their ranges.
 """
 import ast
 import contextlib
@@ -40,7 +47,8 @@ from .c21_select import (K_EXPAND, K_REFMAP, BASE, fnmatch_filter, rule_referenc
 PROP = "C21"
 LEVEL = "other"
 NATIVE_TRIES = {"quick": 0, "thorough": 0}      # the native searches are run (and counted) by BOUNDED[0]
-SHARDS = {"sqlfluff.core.linter.linter:Linter.lint_fix_parsed#rule-loop": 4}     # ~480 small VCs: 4 workers (6 processes in all)
+# the two long proofs are split over 2 workers each (6 worker processes in all)
+SHARDS = {"sqlfluff.core.linter.linter:Linter.lint_fix_parsed#rule-loop": 2, K_REFMAP: 2}
 
 
 def _build_ruleset(rng, gen):
@@ -149,29 +157,6 @@ def _fail(cid, kind, function, detail, reproduced, **kw):
 
 
 # ------------------------------------------------------------------ BOUNDED[0]: native reading of contracts 1 and 2
-def _symbolic_probe():
-    """what the SMT path says about the parked functions today (informational; nothing is counted from it)"""
-    out = {}
-    try:
-        from pyvc import verify
-        for key in (K_REFMAP,):
-            try:
-                rep = verify.gen_function(CONTRACTS[key], PROP)
-                for ob in rep.obligations:
-                    verify.solve_obligation(ob, timeout_ms=3000, use_cli=False)
-                out[key] = {"blocked_by (paths crossing an unsupported construct)": [str(u)[:200] for u in rep.undecided][:4],
-                            "error": [str(x)[:300] for x in rep.error][:2] if rep.error else None,
-                            "vcs_on_the_paths_the_engine_can_execute": len(rep.obligations),
-                            "of_which_discharged": sum(1 for ob in rep.obligations if ob.status == "discharged"),
-                            "not_discharged": [ob.name for ob in rep.obligations if ob.status != "discharged"][:6],
-                            "note": "informational: NOT counted in obligations/discharged; the function as a whole is undecided for the SMT path"}
-            except Exception as e:
-                out[key] = {"error": repr(e)[:300]}
-    except Exception as e:      # pragma: no cover
-        out["probe"] = repr(e)[:300]
-    return out
-
-
 def native_contracts(tier, seed):
     t0 = time.time()
     from sqlfluff.core.rules import get_ruleset
@@ -231,7 +216,7 @@ def native_contracts(tier, seed):
             "observation_outside_requires": {"register": "A1 and B2 both named 'same.name'", "rule_reference_map()['same.name']": dup_obs,
                                              "note": "only the last registered rule answers to a shared name (dict comprehension name_map); "
                                                      "unreachable with the bundled rules, reachable with a plugin that reuses a name"},
-            "symbolic_probe": _symbolic_probe(), "wall_s": round(time.time() - t0, 2), "failed": failed}
+            "wall_s": round(time.time() - t0, 2), "failed": failed}
 
 
 # ------------------------------------------------------------------ BOUNDED[1]: 3. get_rulepack selection is exact
@@ -913,6 +898,67 @@ def dataflow_check(tier, seed):
                                [g.where(r) for r in rets], "body": ast.unparse(g.node)[:600]}))
     clause("Linter.get_rulepack-delegates-with-the-given-config", fails, stale)
 
+    # ---- (7) glue of the pyvc region contract RuleSet.get_rulepack#selection: the two locals its precondition speaks about are bound,
+    #          once, before the range, by exactly the expressions the precondition names, and nothing writes them; the rule objects of
+    #          the returned pack are instantiated from the proved code list, one per code, in its order
+    R = fmap.get(RBASE, {})
+    grp = R.get("RuleSet.get_rulepack")
+    GRP = "sqlfluff.core.rules.base:RuleSet.get_rulepack"
+    fails, stale = [], []
+    if grp is None:
+        stale.append("RuleSet.get_rulepack not found")
+    else:
+        top = list(grp.node.body)
+        start = [i for i, st_ in enumerate(top) if ast.unparse(st_).startswith("allowlist = config.get('rule_allowlist')")]
+        if len(start) != 1:
+            stale.append("statement `allowlist = config.get(\"rule_allowlist\") ...` not found at the top level of get_rulepack")
+        else:
+            for name, want in (("valid_codes", "set(self._register.keys())"), ("reference_map", "self.rule_reference_map()")):
+                bs = grp.bindings(name)
+                okb = (len(bs) == 1 and bs[0][0] == "assign" and ast.unparse(bs[0][2]) == want and bs[0][1] in top[:start[0]])
+                if not okb:
+                    fails.append((GRP, {f"`{name}` is not bound exactly once, before the selection statements, by `{want}`": [grp.where(b[1]) for b in bs]}))
+                for m in grp.mutating_calls(name):
+                    fails.append((GRP, {f"in-place mutation of `{name}`": grp.where(m)}))
+                for n in ast.walk(grp.node):
+                    if isinstance(n, (ast.Subscript, ast.Attribute)) and isinstance(n.ctx, (ast.Store, ast.Del)) and isinstance(n.value, ast.Name) and n.value.id == name:
+                        fails.append((GRP, {f"store into `{name}`": grp.where(n)}))
+            for n in ast.walk(grp.node):
+                if isinstance(n, ast.Attribute) and n.attr == "_register" and isinstance(n.ctx, (ast.Store, ast.Del)):
+                    fails.append((GRP, {"the register is re-bound inside get_rulepack": grp.where(n)}))
+            # keylist: bound by the two statements of the verified range only; the pack is built from it
+            kb = grp.bindings("keylist")
+            if not (len(kb) == 2 and all(k == "assign" and b in top[start[0]:] for k, b, _, _ in kb)):
+                fails.append((GRP, {"`keylist` is not bound by exactly the two statements of the verified range": [grp.where(b[1]) for b in kb]}))
+            ib = grp.bindings("instantiated_rules")
+            loops = [n for n in top if isinstance(n, ast.For) and ast.unparse(n.target) == "code" and ast.unparse(n.iter) == "keylist"]
+            muts = grp.mutating_calls("instantiated_rules")
+            okp = (len(ib) == 1 and ib[0][0] == "assign" and ast.unparse(ib[0][2]) == "[]" and len(loops) == 1 and len(muts) == 1
+                   and muts[0].func.attr == "append" and ast.unparse(muts[0].args[0]) == "rule_class(**kwargs)"
+                   and any(muts[0] is x for x in ast.walk(loops[0]))
+                   and [ast.unparse(b[2]) for b in grp.bindings("rule_class")] == ["self._register[code].rule_class"]
+                   and not any(isinstance(x, (ast.Break, ast.Continue)) for x in ast.walk(loops[0])))
+            if not okp:
+                fails.append((GRP, {"the pack is not built as `for code in keylist: ... instantiated_rules.append(rule_class(**kwargs))` with "
+                                    "rule_class = self._register[code].rule_class": [grp.where(m) for m in muts] + [grp.where(b[1]) for b in ib]}))
+            rets = [n for n in ast.walk(grp.node) if isinstance(n, ast.Return)]
+            if not (len(rets) == 1 and ast.unparse(rets[0].value) == "RulePack(instantiated_rules, reference_map)"):
+                fails.append((GRP, {"get_rulepack does not return RulePack(instantiated_rules, reference_map)": [grp.where(r) for r in rets]}))
+    clause("get_rulepack-region-inputs-and-pack-construction", fails, stale)
+
+    # ---- (8) glue of the pyvc region contract Linter.lint_fix_parsed#rule-loop: loop_limit is what its precondition assumes
+    fails, stale = [], []
+    if lfp is None:
+        stale.append("Linter.lint_fix_parsed not found")
+    else:
+        bs = lfp.bindings("loop_limit")
+        if not (len(bs) == 1 and bs[0][0] == "assign" and ast.unparse(bs[0][2]) == "config.get('runaway_limit') if fix else 1"):
+            fails.append((LFP, {"`loop_limit` is not bound once by `config.get(\"runaway_limit\") if fix else 1`": [lfp.where(b[1]) for b in bs]}))
+        for nm in ("fix", "rule_pack"):
+            if not lfp.is_param(nm):
+                fails.append((LFP, {f"`{nm}` is not a parameter or is re-bound": [lfp.where(b[1]) for b in lfp.bindings(nm)]}))
+    clause("lint_fix_parsed-loop-limit", fails, stale)
+
     return {"name": "C21-dataflow", "obligations": n_ob, "discharged": ok, "failed": failed, "undecided": undecided,
             "samples": samples[:1] + samples[2:3] + samples[5:6], "backend": BACKEND,
             "trusted": ["CPython ast.parse / ast.unparse of the real source (re-read from disk on every run, --src honoured)",
@@ -923,57 +969,111 @@ def dataflow_check(tier, seed):
 
 EXTRA = [dataflow_check]
 BOUNDED = [native_contracts, selection_exact, dynamic_only_selected]
-RULE = ("see bounded_stand_ins[*].rule: [0] native reading of the contracts of _expand_rule_refs / rule_reference_map, [1] get_rulepack against the "
-        "property's formula over pairs of selector lists, [2] lints under a crawl spy; obligations/discharged count the syntactic data-flow clauses only")
+RULE = ("obligations/discharged = the pyvc proof obligations of the four contracts of contracts/c21_select.py + 9 syntactic data-flow clauses; "
+        "bounded_stand_ins[*].rule: [0] native reading of the contracts of _expand_rule_refs / rule_reference_map, [1] get_rulepack against the "
+        "property's formula over pairs of selector lists, [2] lints under a crawl spy")
 
 TRUSTED = [
-    "fnmatch.fnmatch(name, pattern) is the meaning of 'glob' in the property; fnmatch.filter(names, pat) keeps exactly the names with "
-    "fnmatch.fnmatch(name, pat), in order (external contract `fnmatch:filter`, compared with the library on random lists on every run)",
-    "the oracle (class Oracle) is the reading of the property text: codes, names, groups, aliases with precedence codes > names > groups > aliases "
-    "for a string that is several of these; a selector that is not itself a reference is a glob over ALL references (including aliases)",
-    "FluffConfig parses `rules` and `exclude_rules` independently of each other (the exhaustive path sets the two parsed lists on one config "
+    "glob semantics is fnmatch's: `glob(pat, name)` is uninterpreted in the proofs; assumed contract of fnmatch.filter(names, pat): the result holds "
+    "exactly the members of `names` that match, none left out (compared with the library on random inputs on every run, BOUNDED[0]); that a reference "
+    "given literally selects itself comes from the exact-reference branch, not from glob semantics",
+    "engine models used by the proofs: dict.keys() as the key set, dict.values() / list(<set>) as an enumeration in an arbitrary order, sorted(<set>) "
+    "as a repetition-free enumeration that is a function of the set (the order itself is not modelled: `in sorted-register order` is proved as "
+    "`in the relative order of sorted(register keys)`), dict comprehensions (a key's value comes from SOME element with that key), {**a, **b}, "
+    "defaultdict(set) with in-place `d[k].add(x)`, set union / intersection",
+    "rule_reference_map precondition: the register stores each manifest under its own code (RuleSet.register does) and rule names are unique "
+    "(true of the bundled rules: checked on every run by BOUNDED[0]; NOT enforced by register())",
+    "region contract get_rulepack#selection: FluffConfig.get('rule_allowlist' / 'rule_denylist') returns the parsed selector list or None and "
+    "does not change between calls; its precondition (valid_codes = the register's keys, reference_map[code] contains code) is what the two "
+    "statements before the range establish -- EXTRA clause get_rulepack-region-inputs-and-pack-construction checks the bindings syntactically, "
+    "the second fact is rule_reference_map's proved postcondition; the range starts AT the statement reading rule_allowlist, so an edit of that "
+    "very line is reported stale, not verified; rule instantiation after the range is checked syntactically (one rule_class(**kwargs) per code of "
+    "the proved list) and dynamically (BOUNDED[1]), not proved",
+    "region contract lint_fix_parsed#rule-loop: assumed contract of BaseRule.crawl (every violation it returns is a lint error whose `rule` is the "
+    "crawling rule object -- to_linting_error(self) / SQLLintError(rule=self); it does not write rule_pack.rules); the members of a pack are "
+    "distinct objects (get_rulepack instantiates one per code); loop_limit >= 1 and == 1 when not fixing (config validation refuses "
+    "runaway_limit < 1; EXTRA clause lint_fix_parsed-loop-limit checks the binding); tqdm(iterable) iterates exactly `iterable`; "
+    "compute_anchor_edit_info / apply_fixes / time.monotonic / the two logging helpers have no effect on the rule pack, the ghost crawl counters or "
+    "the violation list; `crawls` / `found` are ghost fields written only by the crawl contract; `origin(e)` (SQLLintError.rule) is never re-assigned",
+    "the oracle (class Oracle) of the bounded parts is the reading of the property text: codes, names, groups, aliases with precedence codes > names > "
+    "groups > aliases for a string that is several of these; a selector that is not itself a reference is a glob over ALL references (including aliases)",
+    "FluffConfig parses `rules` and `exclude_rules` independently of each other (the exhaustive bounded path sets the two parsed lists on one config "
     "object; a sub-sample goes through the real constructor with both options and through Linter.get_rulepack)",
-    "SQLBaseError.rule_code() of a violation produced inside BaseRule.crawl is the code of the crawling rule (confirmed dynamically only)",
 ]
 NOT_COVERED = [
-    "second sentence of C21 -- the violations a rule reports do not depend on which other rules are enabled -- is NOT decided (a frame property over "
-    "~70 rule _eval bodies and their shared memory/caches); no check here compares a rule's output alone with its output among other rules",
-    "nothing here is an SMT proof: the contracts of _expand_rule_refs and rule_reference_map are written in the pyvc DSL but PARKED, because the engine "
-    "does not model dict.keys()/dict comprehensions/defaultdict nor quantification over the keys of a dict (SYMBOLIC_BLOCKED); their native reading is "
-    "executed on the real functions over a bounded random domain, get_rulepack over a bounded selector pool",
+    "second sentence of C21 -- the violations a rule reports do not depend on which other rules are enabled -- is NOT decided beyond the rule loop: "
+    "proved there is that each member of the pack is crawled (once when linting) with the same tree / config / mask arguments whatever the other "
+    "members are, and that what it returns is appended untouched; that BaseRule.crawl / the ~70 rule _eval bodies are functions of those arguments "
+    "alone (no shared memory, caches or class state) is a frame property over code not under contract; no check here compares a rule's output "
+    "alone with its output among other rules",
+    "refutation: a broken proof of these contracts comes back `unknown` (quantifiers over strings), not `sat`; a concrete failing input comes from "
+    "the bounded parts (native contract search, selector pool, crawl spy)",
+    "FluffConfig._handle_comma_separated_values (how the option text becomes the selector list) is exercised by BOUNDED[1] only",
     "rule instantiation and configuration validation in get_rulepack (_validate_config_options, per-rule kwargs, description formatting): only checked "
-    "in so far as each pack member is an instance of the class registered under its code",
-    "two rules with the same name (possible only with plugin rules; register() does not refuse it): rule_reference_map keeps the last one only, so "
-    "selecting by that name does not run the first -- excluded by `requires` (names unique), recorded as observation_outside_requires in the evidence",
+    "syntactically (EXTRA) and in so far as each pack member is an instance of the class registered under its code (BOUNDED[1])",
+    "the `unknown rule reference` warnings themselves (logger calls are dropped from the verified text): BOUNDED[1] checks them",
+    "two rules with the same name (possible only with plugin rules; register() does not refuse it): rule_reference_map keeps one of them only, so "
+    "selecting by that name does not run the other -- excluded by `requires` (names unique), recorded as observation_outside_requires in the evidence",
     "user rules registered through Linter(user_rules=...), plugin-provided rule sets, and selectors containing glob characters that are also exact references",
-    "noqa handling (Linter.allowed_rule_ref_map, IgnoreMask) decides which reported violations are *shown*; it is C20's subject. It mutates "
-    "rule_pack.reference_map when disable_noqa_except is set, after the rule list has been fixed",
+    "the fix-mode pass structure beyond `every member is crawled at least once` (which rules are re-run in which pass, loop detection, the post phase)",
+    "noqa handling (Linter.allowed_rule_ref_map, IgnoreMask) decides which reported violations are *shown*; it is C20's subject. lint_parsed's "
+    "merging of the variants' violations (seeded change C21_B) is covered by EXTRA clause lint_parsed-violation-sources and BOUNDED[2], not by pyvc",
     "the NOQA (unused noqa) warning code and the '????' code of bare SQLBaseError are not rule codes and are not produced by the texts linted here",
 ]
 EXPLANATION = (
-    "Selection half of C21, decided by evaluation of executable contracts on the real code plus syntactic data-flow clauses -- not by SMT. "
-    "(a) `obligations`/`discharged` are 7 data-flow clauses over the real AST of every module under <src>/sqlfluff, re-parsed on every run: in "
-    "Linter.lint_fix_parsed every `.crawl(` call is on the loop variable of a for-loop whose iterable is `rule_pack.rules` or is obtained from it only "
-    "by plain assignments, pure-filter list comprehensions and tqdm(...) (rule_pack being a never re-bound parameter); no other call site of a rule's "
-    "crawl/_eval exists in the package (nor a mention as a value / getattr by name); the violation list returned by lint_fix_parsed is only ever `[]`, "
-    "`+=` the first component of those crawl calls, `+=` the comment violations of IgnoreMask.from_tree, or the filter remove_templated_errors of itself "
-    "(which only appends elements of its input); Linter.lint_parsed builds its violations from templating/parse violations, lint_fix_parsed(rule_pack=its own "
-    "parameter) and ignore-mask comments only; every rule pack passed to lint_fix_parsed/lint_parsed/lint_rendered anywhere in the package (including "
-    "through functools.partial) is the caller's own parameter or a local bound only by `<linter>.get_rulepack(config=...)`; Linter.get_rulepack is "
-    "`get_ruleset().get_rulepack(config=config or self.config)`. A failed clause names file:line; it has no failing input (reproduced: false) unless the "
-    "dynamic stand-in also fails. (b) bounded_stand_ins[0]: the pyvc contracts of RuleSet._expand_rule_refs (result = union over the selectors of "
-    "map[r] if r is a key, else of map[k] for the keys k matched by r as a glob) and RuleSet.rule_reference_map (keys = codes U names U groups U "
-    "aliases, values by precedence codes>names>groups>aliases, map[code]={code}, values are codes) are executed natively by pyvc.replay.search on "
-    "the real functions: random maps over the alphabet 'ab*?', the real register, synthetic registers with colliding references. Their SMT reading "
-    "is blocked by engine limits measured on each run in symbolic_probe (first: `dict.keys [line 1118]`). (c) bounded_stand_ins[1]: the real "
-    "RuleSet.get_rulepack on (rules, exclude_rules) pairs of <=2-element lists over 25 selectors (codes, names, groups, aliases, globs, junk; plus the absent and the explicitly empty option) -- all "
-    "106929 pairs in the thorough tier, a seeded sample in the quick tier -- must give exactly sorted(sel(rules or all) - sel(exclude_rules)) where "
-    "sel is computed from the registered manifests by an oracle written from the property text, and must log the unknown-reference warning exactly "
-    "for selectors matching nothing; a sub-sample goes through FluffConfig(overrides) and Linter.get_rulepack. (d) bounded_stand_ins[2]: lints of a text "
-    "on which 25 rules report, under random selections with BaseRule.crawl wrapped by a spy: the rules whose crawl is entered are exactly the selected "
-    "ones and every reported code is selected or PRS/TMP/LXR. NOT decided: the independence sentence of C21.")
+    "C21 decided in three layers. (A) pyvc proofs on the real source (contracts/c21_select.py; counted in obligations/discharged): "
+    "RuleSet._expand_rule_refs -- result == union over the selectors of (map[r] if r is a key, else union of map[k] over the keys k with glob(r, k)), "
+    "as two inclusions, both loops with invariants; RuleSet.rule_reference_map -- keys are exactly the codes, non-empty names, groups and aliases "
+    "of the registered rules, each value is exactly the set of codes the reference stands for under codes > names > groups > aliases (one "
+    "obligation per kind and direction), values are codes, map[code] == {code} (dict comprehensions, defaultdict loops and ** merges executed "
+    "symbolically); RuleSet.get_rulepack#selection (statement range from the read of rule_allowlist to the filtered keylist) -- the code list "
+    "== [c in sorted register | (rules not given or some rules selector stands for c) and no exclude_rules selector stands for c], using the "
+    "proved contract of _expand_rule_refs modularly, no raising path; Linter.lint_fix_parsed#rule-loop (the `for phase` loop nest, lint and fix "
+    "mode, 7 loops) -- with ghost crawl counters: objects outside rule_pack.rules are never crawled, every member is crawled at least once and "
+    "exactly once when linting, the violation list keeps its prefix and every appended violation has a member of the pack as origin, and when "
+    "linting everything a member's crawl returned is in the list. (B) 9 syntactic data-flow clauses over the real AST of every module (EXTRA), "
+    "incl. the glue of the two region contracts. (C) bounded stand-ins: [0] the proved contract texts of 1 and 2 executed natively on the real "
+    "functions (random maps over 'ab*?', the real register, synthetic colliding registers) + fnmatch.filter against its assumed contract; [1] the "
+    "real get_rulepack on pairs of <=2-element selector lists over 25 selectors against an oracle from the property text (all 106929 pairs in the "
+    "thorough tier) incl. the unknown-reference warnings and the FluffConfig / Linter.get_rulepack path; [2] lints under a crawl spy: rules run == "
+    "selected, every reported code selected or PRS/TMP/LXR. NOT decided: that a rule's crawl is independent of the other enabled rules (frame over "
+    "the rule bodies). Level `other`: region contracts assume their surroundings, glob semantics is fnmatch's, B and C are not proofs.")
 
+_L = "sqlfluff/core/linter/linter.py"
+_B = "sqlfluff/core/rules/base.py"
+# The first block: mutants that break a pyvc proof obligation (obligation ids in the comments; a broken proof of these contracts comes
+# back `unknown`, the concrete failing input -- exit 1 -- comes from the bounded parts).  The second block (older) is decided by the
+# bounded / syntactic parts, several of them ALSO break a pyvc obligation (noted).
 MUTANTS = [
+    # --- RuleSet._expand_rule_refs   (C21/sqlfluff.core.rules.base.RuleSet._expand_rule_refs/inv-preserve[1.*] ...)
+    ("expand_first_match_only", _B, "                for matched in matched_refs:\n                    expanded_rule_set.update(reference_map[matched])\n",
+     "                for matched in matched_refs:\n                    expanded_rule_set.update(reference_map[matched])\n                    break\n"),   # inv-preserve[1.2]/pF
+    ("expand_direct_reference_replaces", _B, "                expanded_rule_set.update(reference_map[r])\n", "                expanded_rule_set = set(reference_map[r])\n"),   # inv-preserve[1.2]/pT
+    ("expand_glob_keeps_reference_names", _B, "                    expanded_rule_set.update(reference_map[matched])\n", "                    expanded_rule_set.add(matched)\n"),
+    # --- RuleSet.get_rulepack#selection   (post[ensures.1..3])
+    ("select_deny_wins_only_for_codes", _B, "r for r in keylist if r in expanded_allowlist and r not in expanded_denylist", "r for r in keylist if r in expanded_allowlist and r not in denylist"),
+    ("select_reversed_order", _B, "        keylist = sorted(self._register.keys())\n", "        keylist = sorted(self._register.keys(), reverse=True)\n"),   # BOUNDED[1] only: the engine's sorted() ignores reverse= (reported)
+    ("select_denylist_expanded_from_allowlist", _B, "        expanded_denylist = self._expand_rule_refs(denylist, reference_map)\n",
+     "        expanded_denylist = self._expand_rule_refs(allowlist, reference_map) if not denylist else self._expand_rule_refs(denylist, reference_map)\n"),
+    ("pack_built_from_register_not_keylist", _B, "        for code in keylist:\n            kwargs = {}\n", "        for code in sorted(self._register.keys()):\n            kwargs = {}\n"),   # EXTRA glue clause (7) + bounded
+    # --- Linter.lint_fix_parsed#rule-loop   (inv-entry[3.*] / inv-preserve[3.*])
+    ("loop_first_pass_skips_unfixable", _L, "                        and not is_first_linter_pass()\n", ""),                           # inv-preserve[3.12]
+    ("loop_first_pass_phase_rules_only", _L, "                if is_first_linter_pass():\n                    # In order to compute",
+     "                if False:\n                    # In order to compute"),                                                            # inv-entry[3.10], [3.11]
+    ("loop_found_errors_replace_earlier", _L, "                        initial_linting_errors += linting_errors\n", "                        initial_linting_errors = linting_errors\n"),   # inv-preserve[3.3], [3.4], [3.14]
+    ("loop_skips_first_rule", _L, "                for crawler in progress_bar_crawler:\n", "                for crawler in progress_bar_crawler[1:]:\n"),   # inv-entry[3.10], [3.11]
+    ("loop_lint_crawls_twice", _L, "                    if is_first_linter_pass():\n                        initial_linting_errors += linting_errors\n",
+     "                    if is_first_linter_pass():\n                        initial_linting_errors += linting_errors\n                    if not fix:\n"
+     "                        crawler.crawl(tree, dialect=config.get(\"dialect_obj\"), fix=fix, templated_file=templated_file, ignore_mask=ignore_mask, fname=fname, config=config)\n"),   # inv-preserve[3.13], [3.14]
+    ("loop_errors_dropped_when_linting", _L, "                    if is_first_linter_pass():\n                        initial_linting_errors += linting_errors\n",
+     "                    if is_first_linter_pass() and fix:\n                        initial_linting_errors += linting_errors\n"),     # inv-preserve[3.14]
+    # --- RuleSet.rule_reference_map   (inv-entry[1.*] = the codes / names checkpoint, inv-preserve[2.*] / [4.*] = the group / alias loops)
+    ("refmap_aliases_dropped", _B, "        return {**alias_map, **reference_map}\n", "        return reference_map\n"),
+    ("refmap_alias_maps_to_itself", _B, "                    alias_map[alias].add(manifest.code)\n", "                    alias_map[alias].add(alias)\n"),
+    # --- older block (of these, pyvc obligations also break for: exclude_ignored, explicit_select_beats_exclude, exclude_only_with_select
+    #     [post[ensures.1] of get_rulepack#selection], sorted_removed [post[ensures.3]], glob_even_for_exact_reference [inv-entry[2.4]],
+    #     first_selector_only [post[ensures.2]] of _expand_rule_refs, name_over_code [inv-entry[1.4]], group_keeps_last_rule [inv-preserve[2.3]],
+    #     names_not_selectable [inv-entry[1.5-1.7]] of rule_reference_map; default_selection_core_only edits the region's anchor line: stale)
     ("exclude_ignored", "sqlfluff/core/rules/base.py",
      "r for r in keylist if r in expanded_allowlist and r not in expanded_denylist", "r for r in keylist if r in expanded_allowlist"),
     ("explicit_select_beats_exclude", "sqlfluff/core/rules/base.py",
